@@ -190,6 +190,19 @@ def run_emit(case):
                 f'{name} evaluates to {bool(impl[name] >> k & 1)} at input '
                 f'{[(k >> i) & 1 for i in range(n)]} (bit i = b<i>), the BDD '
                 f'to {bool(t >> k & 1)}')
+    # the C-syntax output is evaluated by an independent strict evaluator
+    try:
+        cimpl = ce.run_c_code(c_code, n, list(roots))
+        for name, t in zip(roots, tabs):
+            if cimpl[name] != t:
+                k = ((cimpl[name] ^ t) & -(cimpl[name] ^ t)).bit_length() - 1
+                info['problems'].append(
+                    f'C output: {name} evaluates to '
+                    f'{bool(cimpl[name] >> k & 1)} at input '
+                    f'{[(k >> i) & 1 for i in range(n)]}, the BDD to '
+                    f'{bool(t >> k & 1)}')
+    except AssertionError as e:
+        info['problems'].append(str(e)[:300])
     if ce.c_to_python(c_code, cg.languages) != code:
         info['problems'].append('C-syntax output is not the token-wise '
                                 'image of the Python output')
